@@ -125,7 +125,7 @@ fn run(mask: u32, quick: bool, seed: u64, stream: u64, rule_tail: &str) -> Outco
 }
 
 pub fn c01(quick: bool, seed: u64) -> Outcome {
-    run(C01, quick, seed, 1, "non-trivial = history with >= 1 re-trigger or release from a level strictly inside (0.01,0.99) and >= 100 ticks checked against the documented curve in timed phases; distinct by hash of the history")
+    run(C01, quick, seed, 1, "C01 oracle: range, exact levels, monotonicity, |value - documented curve| <= 0.005 with the abscissa taken (a) from the hook phase counter and (b) from the time elapsed in the phase (k ticks at N = T*fs ticks per phase, +- one tick), by-contract sustain / rest levels; non-trivial = history with >= 1 re-trigger or release from a level strictly inside (0.01,0.99) and >= 100 ticks checked against the documented curve in timed phases; distinct by hash of the history")
 }
 
 pub fn c02(quick: bool, seed: u64) -> Outcome {
